@@ -191,7 +191,43 @@ func isHexArg(s string) bool {
 	return true
 }
 
+// operations whose answer must not depend on the selected network (everything that is not an address, a WIF
+// string or an extended key): every 24th case is evaluated once more under a network without a segwit prefix
+// or under another one, through `net.with`
+var netIndependentOps = map[string]bool{
+	"tx.dec": true, "tx.enc": true, "blk.dec": true, "hdr.dec": true, "in.dec": true, "out.dec": true, "wit.dec": true,
+	"stream.dec": true, "varint.dec": true, "sighash.legacy": true, "sighash.bip143": true,
+	"script.decompile": true, "script.strip": true, "merkle.root": true, "nbits.target": true, "der.dec": true, "point.dec": true, "mh.run": true,
+	"bech32.dec": true, "b58.dec": true, "b58c.dec": true, "bip39.dec": true, "tap.leaf": true, "tap.p2tr": true,
+}
+var netCounter int
+
+func (r *Runner) maybeOtherNetwork(op string, args []string, tag string, mode Mode) {
+	if inSibling || arenaOff || !netIndependentOps[op] || mode != Full {
+		return
+	}
+	if _, ok := ops[op]; !ok {
+		return
+	}
+	netCounter++
+	if netCounter%24 != 7 {
+		return
+	}
+	total := 0
+	for _, a := range args {
+		total += len(a)
+	}
+	if total > 1<<16 {
+		return
+	}
+	net := []string{"zec", "ltc", "tbtc"}[(netCounter/24)%3]
+	inSibling = true
+	r.DoMode("net.with", append([]string{net, op}, args...), tag+"/other-network", false, "the same operation with "+net+" selected", Full)
+	inSibling = false
+}
+
 func (r *Runner) maybeSibling(op string, args []string, tag string, mode Mode) {
+	r.maybeOtherNetwork(op, args, tag, mode)
 	// only operations whose handlers and model accept arguments of every length (checked one by one:
 	// a shifted boundary must not leave the operation's protocol)
 	if ti := textDecodeOps[op] - 1; !inSibling && !arenaOff && ti >= 0 && len(args) > ti && isHexArg(args[ti]) && args[ti] != "-" {
